@@ -309,4 +309,100 @@ theorem c03_ticket_origin (p : Params) (bal : List (Nat × Int)) (h t : Nat) (op
       rw [e8] at hfee
       exact q13 hfee
 
+-- ---------------------------------------------------------------------------------------------
+-- non-vacuity: a bet split over two participations that wins, one that loses, one refunded on a cancelled market
+
+def bpTk : Tk := { ok := true, kycIgnore := true, kycApproved := false, kycId := 0 }
+def bpParams : Params := { betMin := 2, betFee := 1, houseMin := 2, obThreshold := 0, obMaxPart := 6 }
+def bpPl (mk o : Nat) (ov : Int) (o1 o2 : Nat) : WagerPayload :=
+  { market := mk, odds := o, oddsVal := some ⟨PREC * ov⟩, mult := ⟨PREC⟩, allOdds := [(o1, ⟨PREC⟩), (o2, ⟨PREC⟩)] }
+/-- market 7 (outcomes 11, 12; created by account 9) gets deposits 100 from account 1 and 300 from account 2, market 8
+    a deposit of 200 from account 4; account 3 bets 61 on 11 at odds 3, account 5 bets 101 on 12 at odds 2 (both
+    backed by both participations of market 7), account 6 bets 41 on market 8; market 7 is declared for 11, market 8
+    cancelled; two end-blocks -/
+def bpOps : List Op := [
+  .marketAdd 9 bpTk 7 1 1000 [11, 12] MS_ACTIVE,
+  .marketAdd 9 bpTk 8 1 1000 [21, 22] MS_ACTIVE,
+  .deposit 1 bpTk 7 100 0,
+  .deposit 2 bpTk 7 300 0,
+  .deposit 4 bpTk 8 200 0,
+  .wager 3 bpTk 501 61 (bpPl 7 11 3 11 12),
+  .wager 5 bpTk 502 101 (bpPl 7 12 2 11 12),
+  .wager 6 bpTk 503 41 (bpPl 8 21 2 21 22),
+  .marketResolve bpTk 7 5 MS_DECLARED [11],
+  .marketResolve bpTk 8 5 MS_CANCELED [],
+  .endBlock, .newBlock 2 10, .endBlock ]
+def bpInit : State :=
+  initState bpParams [(1, 100000), (2, 100000), (3, 1000), (4, 100000), (5, 1000), (6, 1000), (9, 0)] 1 0
+/-- the state after the first `n` operations -/
+def bpS (n : Nat) : State := run bpInit (bpOps.take n)
+/-- the bet records as (bettor, id, uid, recorded stake, fee, status, result, settlement height, parts (idx, stake, profit)) -/
+def bpView (s : State) : List (Nat × Nat × Nat × Int × Int × Nat × Nat × Nat × List (Nat × Int × Int)) :=
+  s.bets.map (fun x => (x.creator, x.id, x.uid, x.amount, x.fee, x.status, x.result, x.settleHeight,
+    x.fulfs.map fun f => (f.idx, f.bet, f.profit)))
+
+/-- placement (`c03_charge_at_placement`): the wager of account 3 makes the bet store longer; the bet is split over
+    participations 1 and 2 (stakes 45 + 15 = recorded stake 60, promised profits 90 + 30 = 120 = (61 − 1)·(3 − 1));
+    the bettor pays 61 = fee 1 + stake 60, the pool receives 60, the fee collector 1 -/
+example :
+    (decide ((bpS 5).bets.length < (step (bpS 5) (bpOps.getD 5 .endBlock)).1.bets.length) &&
+    bpView (bpS 6) == [(3, 1, 501, 60, 1, BS_PLACED, BR_PENDING, 0, [(1, 45, 90), (2, 15, 30)])] &&
+    (bpS 6).bets.map (fun x => sumProfit x.fulfs) == [bpPromised ⟨PREC * 3⟩ 61 1] &&
+    (bpS 5).bal == [(1, 99900), (2, 99700), (3, 1000), (4, 99800), (5, 1000), (6, 1000), (9, 0),
+      (ACC_POOL, 540), (ACC_HOUSEFEE, 60)] &&
+    (bpS 6).bal == [(1, 99900), (2, 99700), (3, 939), (4, 99800), (5, 1000), (6, 1000), (9, 0),
+      (ACC_POOL, 600), (ACC_HOUSEFEE, 60), (ACC_BETFEE, 1)]) = true := by
+  decide +kernel
+
+/-- before the end-block: the three bets are stored unsettled and listed as pending -/
+example :
+    (bpView (bpS 10) == [(3, 1, 501, 60, 1, BS_PLACED, BR_PENDING, 0, [(1, 45, 90), (2, 15, 30)]),
+       (5, 2, 502, 100, 1, BS_PLACED, BR_PENDING, 0, [(1, 90, 90), (2, 10, 10)]),
+       (6, 3, 503, 40, 1, BS_PLACED, BR_PENDING, 0, [(1, 40, 40)])] &&
+    (bpS 10).pending == [(7, 1, 501, 3), (7, 2, 502, 5), (8, 3, 503, 6)] &&
+    (bpS 10).bal == [(1, 99900), (2, 99700), (3, 939), (4, 99800), (5, 899), (6, 959), (9, 0),
+      (ACC_POOL, 740), (ACC_HOUSEFEE, 60), (ACC_BETFEE, 3)]) = true := by
+  decide +kernel
+
+/-- the three `Settle` calls of the end-block, one after the other (`c03_settlement_payout`):
+    bet 501 WON — the pool pays account 3 (45 + 90) + (15 + 30) = 180 = 60 + 120, the fee 1 goes to the market creator 9;
+    bet 502 LOST — account 5 receives nothing, the fee 1 goes to the market creator;
+    bet 503 REFUNDED — the pool pays account 6 the recorded stake 40 and the fee collector pays the fee 1 back;
+    no other balance moves -/
+example :
+    ((settleBet (bpS 10) 3 501).map (·.bal) ==
+      some [(1, 99900), (2, 99700), (3, 1119), (4, 99800), (5, 899), (6, 959), (9, 1),
+        (ACC_POOL, 560), (ACC_HOUSEFEE, 60), (ACC_BETFEE, 2)] &&
+    ((settleBet (bpS 10) 3 501).bind (settleBet · 5 502)).map (·.bal) ==
+      some [(1, 99900), (2, 99700), (3, 1119), (4, 99800), (5, 899), (6, 959), (9, 2),
+        (ACC_POOL, 560), (ACC_HOUSEFEE, 60), (ACC_BETFEE, 1)] &&
+    (((settleBet (bpS 10) 3 501).bind (settleBet · 5 502)).bind (settleBet · 6 503)).map (·.bal) ==
+      some [(1, 99900), (2, 99700), (3, 1119), (4, 99800), (5, 899), (6, 1000), (9, 2),
+        (ACC_POOL, 520), (ACC_HOUSEFEE, 60), (ACC_BETFEE, 0)] &&
+    (((settleBet (bpS 10) 3 501).bind (settleBet · 5 502)).bind (settleBet · 6 503)).map bpView ==
+      some (bpView (bpS 11))) = true := by
+  decide +kernel
+
+/-- the end-block as a whole: the hypotheses of `c03_settlement_payout` hold for each of the three bets (stored
+    unsettled before, settled with the same id after), the results are WON / LOST / REFUNDED, stamped with height 1;
+    account 3 received 180, account 5 nothing, account 6 its 41 back (the remaining movements are the payouts of the
+    participations, C04) -/
+example :
+    ((bpS 10).bets.all (fun x => x.status != BS_SETTLED &&
+        (step (bpS 10) .endBlock).1.bets.any (fun x' => x'.id == x.id && x'.status == BS_SETTLED)) &&
+    bpView (bpS 11) == [(3, 1, 501, 60, 1, BS_SETTLED, BR_WON, 1, [(1, 45, 90), (2, 15, 30)]),
+       (5, 2, 502, 100, 1, BS_SETTLED, BR_LOST, 1, [(1, 90, 90), (2, 10, 10)]),
+       (6, 3, 503, 40, 1, BS_SETTLED, BR_REFUNDED, 1, [(1, 40, 40)])] &&
+    (bpS 11).pending == [] &&
+    (bpS 11).bal == [(1, 99990), (2, 99950), (3, 1119), (4, 100000), (5, 899), (6, 1000), (9, 42),
+      (ACC_POOL, 0), (ACC_HOUSEFEE, 0), (ACC_BETFEE, 0)]) = true := by
+  decide +kernel
+
+/-- nothing further (`c03_nothing_further`): the next block's end-block changes no bet record and no balance, and
+    `Settle` fails on each of the settled bets -/
+example :
+    (bpView (bpS 13) == bpView (bpS 11) && (bpS 13).bal == (bpS 11).bal && (bpS 13).pending == [] &&
+    (settleBet (bpS 13) 3 501).isNone && (settleBet (bpS 13) 5 502).isNone && (settleBet (bpS 13) 6 503).isNone) = true := by
+  decide +kernel
+
 end Sge.Core
